@@ -1,12 +1,596 @@
-//! C01: harness not built yet.
+//! C01: CASE admits only holders of a valid NOC of the addressed fabric.
+//!
+//! Two REAL `Matter` nodes (controller = CASE initiator via `CaseInitiator::perform`, device =
+//! `SecureChannel` responder) run in-process over the simulated network (`simnet`) on virtual time.
+//! Fabrics are installed with `Fabrics::add` from certificates minted out of the same symbolic
+//! records the Lean model consumes (`c19::Rec`), so a node can be given a chain that is invalid in
+//! one respect. One operation = one handshake:
+//!
+//!   `hs root=<rec> cnoc=<rec> cicac=<rec|-> dnoc=<rec> dicac=<rec|-> [droot=<rec>] [mut=<M>] [sched=<S>]`
+//!       fresh nodes, fabric id = the one of `dnoc`; `droot` = root installed on the device if it
+//!       differs from the controller's (`root`); `ckey=<k>` / `dkey=<k>`: the node signs with pool key
+//!       `k` instead of the key its NOC certifies.
+//!   `again [mut=<M>] [sched=<S>]`   another handshake between the same two nodes (resumption
+//!       is offered when the previous one seeded the caches)
+//!
+//! `mut=<msg>:<kind>:<a>[:<b>]` rewrites the FIRST datagram carrying that handshake message
+//! (`s1 s2 s3 r2` = Sigma2_Resume, `st` = status report):
+//!   `f:<tag>:<bit>` flip one bit inside top-level TLV field `<tag>` of the payload,
+//!   `p:<bit>` flip one bit anywhere in the payload, `h:<bit>` one bit in the message headers,
+//!   `t:<n>` truncate the payload to `n mod len` bytes,
+//!   `r` replace the payload by the payload of the same message type of the previous handshake,
+//!   `x:<tag>` substitute field `<tag>` by its value in the previous handshake.
+//! `sched=` verdict per datagram in send order: `d` deliver, `x` drop, `u` duplicate, `l<ms>` delay.
+//!
+//! Output: `t=<l|r><secs> ctl=<S> dev=<S> keys=<agree|differ|na> init=<ok|err>` with
+//! `S = none | sess(fab=<idx>,peer=<node>,cats=<a.b|->,local=<node>)` — the CASE sessions that
+//! became live (unreserved) during this operation, read from the session tables through the hook.
+use std::cell::RefCell;
+use std::rc::Rc;
+
+use embassy_futures::select::{select, select3, Either, Either3};
+use embassy_time::{Duration, Timer};
+
+use rs_matter::crypto::{test_only_crypto, CanonAeadKeyRef, CanonPkcSecretKeyRef, Crypto};
+use rs_matter::dm::devices::test::{TEST_DEV_ATT, TEST_DEV_COMM, TEST_DEV_DET};
+use rs_matter::error::Error;
+use rs_matter::respond::Responder;
+use rs_matter::sc::case::CaseInitiator;
+use rs_matter::sc::{OpCode, SecureChannel, PROTO_ID_SECURE_CHANNEL};
+use rs_matter::tlv::TLVElement;
+use rs_matter::transport::exchange::Exchange;
+use rs_matter::transport::network::NoNetwork;
+use rs_matter::transport::packet::PacketHdr;
+use rs_matter::transport::session::SessionMode;
+use rs_matter::utils::storage::ParseBuf;
+use rs_matter::Matter;
+
+use crate::c19::{gen_records, kv, mint, Attr, GenP, Keys, Rec, IPK};
+use crate::proto::{parse_cases, Case, Out};
+use crate::rng::Rng;
+use crate::simnet::{addr_of, run_sim, Scripted, SimEnd, SimNet, Verdict};
 use crate::Args;
 
-pub fn gen(_a: &Args) -> String {
-    eprintln!("C01: harness not built yet");
-    std::process::exit(2);
+#[derive(Clone, Debug, PartialEq)]
+struct Sess {
+    fab: u8,
+    peer: u64,
+    cats: Vec<u32>,
+    local: u64,
+    dec: [u8; 16],
+    enc: [u8; 16],
+    lsid: u16,
 }
 
-pub fn replay(_a: &Args) -> String {
-    eprintln!("C01: harness not built yet");
-    std::process::exit(2);
+fn sessions(m: &Matter) -> Vec<Sess> {
+    m.with_state(|st| {
+        st.verif_sessions()
+            .iter()
+            .filter_map(|s| {
+                let (reserved, local, dec, enc) = s.verif_view();
+                match s.get_session_mode() {
+                    SessionMode::Case { fab_idx, cat_ids } if !reserved => Some(Sess {
+                        fab: fab_idx.get(),
+                        peer: s.get_peer_node_id().unwrap_or(0),
+                        cats: cat_ids.iter().copied().filter(|c| *c != 0).collect(),
+                        local,
+                        dec,
+                        enc,
+                        lsid: s.get_local_sess_id(),
+                    }),
+                    _ => None,
+                }
+            })
+            .collect()
+    })
+}
+
+fn fmt_sess(v: &[Sess]) -> String {
+    if v.is_empty() {
+        return "none".into();
+    }
+    v.iter()
+        .map(|s| {
+            let cats = if s.cats.is_empty() { "-".to_string() } else { s.cats.iter().map(|c| c.to_string()).collect::<Vec<_>>().join(".") };
+            format!("sess(fab={},peer={},cats={},local={})", s.fab, s.peer, cats, s.local)
+        })
+        .collect::<Vec<_>>()
+        .join("+")
+}
+
+/// which handshake message a datagram carries, and where its payload starts
+fn classify(data: &[u8]) -> Option<(&'static str, usize)> {
+    let mut copy = data.to_vec();
+    let total = copy.len();
+    let mut pb = ParseBuf::new(copy.as_mut_slice());
+    let mut hdr = PacketHdr::new();
+    if hdr.decode_plain_hdr(&mut pb).is_err() {
+        return None;
+    }
+    if hdr.plain.sess_id != 0 {
+        return None;
+    }
+    if hdr.decode_remaining(test_only_crypto(), None, 0, &mut pb).is_err() {
+        return None;
+    }
+    if hdr.proto.proto_id != PROTO_ID_SECURE_CHANNEL {
+        return None;
+    }
+    let off = total - pb.as_slice().len();
+    let op = hdr.proto.proto_opcode;
+    let name = if op == OpCode::CASESigma1 as u8 {
+        "s1"
+    } else if op == OpCode::CASESigma2 as u8 {
+        "s2"
+    } else if op == OpCode::CASESigma3 as u8 {
+        "s3"
+    } else if op == OpCode::CASESigma2Resume as u8 {
+        "r2"
+    } else if op == OpCode::StatusReport as u8 {
+        "st"
+    } else {
+        return None;
+    };
+    Some((name, off))
+}
+
+/// byte range of the value of top-level context-tagged field `tag` inside a TLV struct payload
+fn field_range(payload: &[u8], tag: u8) -> Option<(usize, usize)> {
+    let el = TLVElement::new(payload);
+    let f = el.structure().ok()?.find_ctx(tag).ok()?;
+    let v = f.raw_value().ok()?;
+    let start = (v.as_ptr() as usize).checked_sub(payload.as_ptr() as usize)?;
+    if v.is_empty() || start + v.len() > payload.len() {
+        return None;
+    }
+    Some((start, v.len()))
+}
+
+#[derive(Clone, Debug)]
+struct Mutation {
+    msg: String,
+    kind: String,
+    a: u64,
+    b: u64,
+}
+
+fn parse_mut(s: &str) -> Option<Mutation> {
+    let p: Vec<&str> = s.split(':').collect();
+    if p.len() < 2 {
+        return None;
+    }
+    Some(Mutation {
+        msg: p[0].to_string(),
+        kind: p[1].to_string(),
+        a: p.get(2).and_then(|x| x.parse().ok()).unwrap_or(0),
+        b: p.get(3).and_then(|x| x.parse().ok()).unwrap_or(0),
+    })
+}
+
+fn parse_sched(s: &str) -> Vec<Verdict> {
+    s.split('.')
+        .filter(|x| !x.is_empty())
+        .map(|x| match x.as_bytes()[0] {
+            b'x' => Verdict::Drop,
+            b'u' => Verdict::Dup,
+            b'l' => Verdict::Delay(x[1..].parse().unwrap_or(50)),
+            _ => Verdict::Deliver,
+        })
+        .collect()
+}
+
+/// payloads of the handshake messages of the previous handshake (for replay / substitution)
+type Prev = Rc<RefCell<std::collections::HashMap<String, Vec<u8>>>>;
+
+fn apply(m: &Mutation, data: &[u8], off: usize, prev: &std::collections::HashMap<String, Vec<u8>>) -> Option<Vec<u8>> {
+    let mut out = data.to_vec();
+    let plen = data.len() - off;
+    match m.kind.as_str() {
+        "f" => {
+            let (s, l) = field_range(&data[off..], m.a as u8)?;
+            let bit = (m.b as usize) % (l * 8);
+            out[off + s + bit / 8] ^= 1 << (bit % 8);
+        }
+        "p" => {
+            if plen == 0 {
+                return None;
+            }
+            let bit = (m.a as usize) % (plen * 8);
+            out[off + bit / 8] ^= 1 << (bit % 8);
+        }
+        "h" => {
+            if off == 0 {
+                return None;
+            }
+            let bit = (m.a as usize) % (off * 8);
+            out[bit / 8] ^= 1 << (bit % 8);
+        }
+        "t" => {
+            if plen == 0 {
+                return None;
+            }
+            out.truncate(off + (m.a as usize) % plen);
+        }
+        "r" => {
+            let old = prev.get(&m.msg)?;
+            out.truncate(off);
+            out.extend_from_slice(old);
+        }
+        "x" => {
+            let old = prev.get(&m.msg)?;
+            let (s, l) = field_range(&data[off..], m.a as u8)?;
+            let (os, ol) = field_range(old, m.a as u8)?;
+            if l != ol {
+                return None;
+            }
+            out[off + s..off + s + l].copy_from_slice(&old[os..os + ol]);
+        }
+        _ => return None,
+    }
+    if out == data {
+        None
+    } else {
+        Some(out)
+    }
+}
+
+struct Nodes {
+    ctl: Matter<'static>,
+    dev: Matter<'static>,
+    ctl_fab: core::num::NonZeroU8,
+    dev_node: u64,
+    prev: Prev,
+}
+
+fn node_id(r: &Rec) -> Option<u64> {
+    r.s.iter().find_map(|a| if let Attr::Node(v) = a { Some(*v) } else { None })
+}
+
+fn install<C: Crypto>(crypto: &C, keys: &Keys, m: &Matter, root: &Rec, noc: &Rec, icac: Option<&Rec>, op_key: Option<u64>) -> Result<core::num::NonZeroU8, String> {
+    let rb = mint(crypto, keys, root).map_err(|_| "mint")?;
+    let nb = mint(crypto, keys, noc).map_err(|_| "mint")?;
+    let ib = match icac {
+        Some(i) => mint(crypto, keys, i).map_err(|_| "mint")?,
+        None => vec![],
+    };
+    // the node's operational secret key: the NOC's own unless the case says otherwise
+    let sk = keys.key(op_key.unwrap_or(noc.pk)).sk;
+    m.with_state(|st| {
+        st.fabrics
+            .add(crypto, CanonPkcSecretKeyRef::new(&sk), &rb, &nb, &ib, Some(CanonAeadKeyRef::new(&IPK)), 0xFFF1, 112233)
+            .map(|f| f.fab_idx())
+            .map_err(|e| format!("fabric:{:?}", e.code()))
+    })
+}
+
+fn handshake(n: &Nodes, mutation: Option<Mutation>, sched: Vec<Verdict>) -> String {
+    let crypto = test_only_crypto();
+    // guard: a datagram storm (two nodes answering each other without end) must not take the
+    // harness down; after `CAP` datagrams everything is dropped and the outcome says `storm`
+    const CAP: u64 = 1500;
+    struct Capped(Scripted);
+    impl crate::simnet::Policy for Capped {
+        fn decide(&mut self, f: usize, t: usize, b: &[u8], seq: u64) -> Verdict {
+            if seq >= CAP {
+                Verdict::Drop
+            } else {
+                self.0.decide(f, t, b, seq)
+            }
+        }
+    }
+    let net = SimNet::new(2, Box::new(Capped(Scripted(sched))));
+    let seen: Rc<RefCell<std::collections::HashMap<String, Vec<u8>>>> = Rc::new(RefCell::new(Default::default()));
+    {
+        let seen = seen.clone();
+        let prev = n.prev.clone();
+        let mut done = false;
+        net.set_tamper(Box::new(move |_seq, _from, _to, data| {
+            let (name, off) = classify(data)?;
+            seen.borrow_mut().entry(name.to_string()).or_insert_with(|| data[off..].to_vec());
+            let m = mutation.as_ref()?;
+            if done || m.msg != name {
+                return None;
+            }
+            done = true;
+            apply(m, data, off, &prev.borrow())
+        }));
+    }
+    let before_c: Vec<u16> = sessions(&n.ctl).iter().map(|s| s.lsid).collect();
+    let before_d: Vec<u16> = sessions(&n.dev).iter().map(|s| s.lsid).collect();
+    let ds = net.socket(0);
+    let cs = net.socket(1);
+    let sc = SecureChannel::new(&crypto, &());
+    let responder = Responder::new("device", sc, &n.dev, 0);
+    let flow = async {
+        let r: Result<(), Error> = async {
+            let exchange = Exchange::initiate_plaintext(&n.ctl, &crypto, addr_of(0)).await?;
+            match select(
+                core::pin::pin!(CaseInitiator::perform(exchange, &crypto, n.ctl_fab, n.dev_node)),
+                core::pin::pin!(Timer::after(Duration::from_secs(40))),
+            )
+            .await
+            {
+                Either::First(r) => r,
+                Either::Second(_) => Err(rs_matter::error::ErrorCode::RxTimeout.into()),
+            }
+        }
+        .await;
+        // let the responder finish its side (final acknowledgements, retransmissions)
+        Timer::after(Duration::from_secs(12)).await;
+        r
+    };
+    let all = async {
+        match select3(n.dev.run(&crypto, &ds, &ds, NoNetwork), select(responder.run::<4>(), n.ctl.run(&crypto, &cs, &cs, NoNetwork)), flow).await {
+            Either3::Third(r) => Some(r),
+            _ => None,
+        }
+    };
+    let init = match run_sim(&net, all, 90_000) {
+        SimEnd::Done(Some(Ok(()))) => "ok",
+        SimEnd::Done(Some(Err(_))) => "err",
+        SimEnd::Done(None) => "transport-exit",
+        SimEnd::Timeout => "sim-timeout",
+    };
+    let new_c: Vec<Sess> = sessions(&n.ctl).into_iter().filter(|s| !before_c.contains(&s.lsid)).collect();
+    let new_d: Vec<Sess> = sessions(&n.dev).into_iter().filter(|s| !before_d.contains(&s.lsid)).collect();
+    // drop all sessions / exchanges of this handshake (fabrics and the resumption cache stay)
+    let _ = n.ctl.reset_transport();
+    let _ = n.dev.reset_transport();
+    let keys = if new_c.len() == 1 && new_d.len() == 1 {
+        if new_c[0].enc == new_d[0].dec && new_c[0].dec == new_d[0].enc && new_c[0].enc != [0u8; 16] {
+            "agree"
+        } else {
+            "differ"
+        }
+    } else {
+        "na"
+    };
+    *n.prev.borrow_mut() = seen.borrow().clone();
+    let t = n.dev.with_rtc(|r| r.utc_time());
+    let ts = match t {
+        rs_matter::dm::clusters::time_sync::UtcTime::Reliable(_) => format!("r{}", t.any_secs()),
+        rs_matter::dm::clusters::time_sync::UtcTime::LastKnown(_) => format!("l{}", t.any_secs()),
+    };
+    let storm = if net.log_len() as u64 >= CAP { " storm" } else { "" };
+    if std::env::var("VH_WIRE").is_ok() {
+        for (i, l) in net.log().iter().enumerate().take(40) {
+            eprintln!("  #{} t={} {}->{} len={} {:?} {}", i, l.t_ms, l.from, l.to, l.bytes.len(), l.verdict, crate::proto::hex(&l.bytes[..l.bytes.len().min(28)]));
+        }
+    }
+    format!("t={} ctl={} dev={} keys={} init={}{}", ts, fmt_sess(&new_c), fmt_sess(&new_d), keys, init, storm)
+}
+
+fn run_case(out: &mut Out, case: &Case) {
+    out.case(case.id, &case.kind);
+    let crypto = test_only_crypto();
+    let keys = Keys::new(&crypto);
+    let mut nodes: Option<Nodes> = None;
+    for op in &case.ops {
+        let toks: Vec<&str> = op.split_whitespace().collect();
+        let mut mutation = None;
+        let mut sched = vec![];
+        for t in &toks[1..] {
+            if let Some(v) = kv(t, "mut") {
+                mutation = parse_mut(v);
+            } else if let Some(v) = kv(t, "sched") {
+                sched = parse_sched(v);
+            }
+        }
+        if std::env::var("VH_TRACE").is_ok() {
+            eprintln!("case {} start {}", case.id, op.split_whitespace().filter(|t| t.starts_with("mut=") || t.starts_with("sched=")).collect::<Vec<_>>().join(" "));
+        }
+        let res = std::panic::catch_unwind(std::panic::AssertUnwindSafe(|| match toks.first().copied() {
+            Some("hs") => {
+                let get = |k: &str| toks[1..].iter().find_map(|t| kv(t, k)).and_then(|v| if v == "-" { None } else { Rec::parse(v) });
+                let (Some(root), Some(cnoc), Some(dnoc)) = (get("root"), get("cnoc"), get("dnoc")) else {
+                    return "bad".to_string();
+                };
+                let droot = get("droot").unwrap_or_else(|| root.clone());
+                let ctl = Matter::new(&TEST_DEV_DET, TEST_DEV_COMM, &TEST_DEV_ATT, 0);
+                let dev = Matter::new(&TEST_DEV_DET, TEST_DEV_COMM, &TEST_DEV_ATT, 0);
+                let key = |k: &str| toks[1..].iter().find_map(|t| kv(t, k)).and_then(|v| v.parse::<u64>().ok());
+                let cf = match install(&crypto, &keys, &ctl, &root, &cnoc, get("cicac").as_ref(), key("ckey")) {
+                    Ok(f) => f,
+                    Err(e) => return e,
+                };
+                if let Err(e) = install(&crypto, &keys, &dev, &droot, &dnoc, get("dicac").as_ref(), key("dkey")) {
+                    return e;
+                }
+                let n = Nodes { ctl, dev, ctl_fab: cf, dev_node: node_id(&dnoc).unwrap_or(0), prev: Rc::new(RefCell::new(Default::default())) };
+                let r = handshake(&n, mutation, sched);
+                nodes = Some(n);
+                r
+            }
+            Some("again") => match nodes.as_ref() {
+                Some(n) => handshake(n, mutation, sched),
+                None => "nostate".to_string(),
+            },
+            _ => "bad".to_string(),
+        }));
+        let v = res.unwrap_or_else(|_| "panic".into());
+        if std::env::var("VH_TRACE").is_ok() {
+            eprintln!("case {} op {} => {}", case.id, &op[..op.len().min(12)], v);
+        }
+        for part in v.split_whitespace() {
+            if let Some((k, val)) = part.split_once('=') {
+                if k != "t" {
+                    let cls = if val.starts_with("sess") { "sess" } else { val };
+                    out.stat(&format!("out_{}_{}", k, cls), 1);
+                }
+            }
+        }
+        out.op(op, &v);
+    }
+}
+
+// ------------------------------------------------------------------------------------------------
+// generator
+
+fn std_chain(r: &mut Rng, fab: u64, node: u64, cats: Vec<u32>, with_icac: bool, kn: u64) -> (Rec, Option<Rec>, Rec) {
+    let p = GenP { fab, node, cats, rca: 3, ica: if with_icac { Some(r.range(10, 19)) } else { None }, nb: 1, na: 0, kr: 0, ki: 1, kn };
+    gen_records(&p)
+}
+
+fn hs_line(root: &Rec, c: &(Rec, Option<Rec>, Rec), d: &(Rec, Option<Rec>, Rec), droot: Option<&Rec>, extra: &str) -> String {
+    let o = |x: &Option<Rec>| x.as_ref().map(|r| r.text()).unwrap_or_else(|| "-".into());
+    let mut s = format!("hs root={} cnoc={} cicac={} dnoc={} dicac={}", root.text(), c.2.text(), o(&c.1), d.2.text(), o(&d.1));
+    if let Some(dr) = droot {
+        s.push_str(&format!(" droot={}", dr.text()));
+    }
+    if !extra.is_empty() {
+        s.push(' ');
+        s.push_str(extra);
+    }
+    s
+}
+
+fn random_mutation(r: &mut Rng, resumed: bool, out: &mut Out) -> String {
+    let msg = if resumed { *r.pick(&["s1", "s1", "r2", "r2", "st"]) } else { *r.pick(&["s1", "s2", "s3", "st", "s1", "s2"]) };
+    let fields: &[u64] = match msg {
+        "s1" => &[1, 2, 3, 4, 6, 7],
+        "s2" => &[1, 2, 3, 4],
+        "s3" => &[1],
+        "r2" => &[1, 2, 3],
+        _ => &[],
+    };
+    let kind = match r.below(10) {
+        0..=4 if !fields.is_empty() => "f",
+        0..=5 => "p",
+        6 => "h",
+        7 => "t",
+        _ => "p",
+    };
+    out.stat(&format!("mut_{}_{}", msg, kind), 1);
+    match kind {
+        "f" => format!("mut={}:f:{}:{}", msg, r.pick(fields), r.below(4096)),
+        "t" => format!("mut={}:t:{}", msg, r.below(4096)),
+        k => format!("mut={}:{}:{}", msg, k, r.below(8192)),
+    }
+}
+
+fn random_sched(r: &mut Rng, out: &mut Out) -> String {
+    let n = r.range(2, 9);
+    let v: Vec<String> = (0..n)
+        .map(|_| match r.below(10) {
+            0..=1 => { out.stat("sched_drop", 1); "x".to_string() }
+            2 => { out.stat("sched_dup", 1); "u".to_string() }
+            3..=4 => { out.stat("sched_delay", 1); format!("l{}", r.range(20, 900)) }
+            _ => "d".to_string(),
+        })
+        .collect();
+    format!("sched={}", v.join("."))
+}
+
+const RULE: &str = "#rule a case is a sequence of CASE handshakes between two real in-process Matter nodes on the simulated network: honest chains (with/without ICAC, CATs), a chain invalid in one respect on either side (signature, issuer name, expiry, CA flag, key usage, path length, critical extension, node/fabric id, NOC as authority, other root, CA-shaped leaf), a second handshake (resumption) and, on valid set-ups, one mutation of one handshake datagram (bit flip in a TLV field / payload / header, truncation, replay or field substitution from the previous handshake) or a loss/duplication/delay schedule; observed per side: live CASE sessions (fabric, peer node, CATs) + whether both ends hold the same directional keys; non-trivial = by outputs";
+
+pub fn gen(a: &Args) -> String {
+    let mut r = Rng::new(a.seed);
+    let mut out = Out::default();
+    out.buf.push_str(RULE);
+    out.buf.push('\n');
+    let n_cases = if a.thorough { 7000 } else { 420 };
+    for id in 0..n_cases {
+        let mut cr = r.fork();
+        let fab = *cr.pick(&[1u64, 7, 0x1234]);
+        let cats = if cr.chance(1, 3) { vec![0x0001_0001u32, 0x00AB_0002][..cr.range(1, 2) as usize].to_vec() } else { vec![] };
+        let c_icac = cr.chance(1, 2);
+        let d_icac = cr.chance(1, 3);
+        let cn = 100 + cr.below(3);
+        let dn = 200 + cr.below(3);
+        let c = std_chain(&mut cr, fab, cn, cats, c_icac, 2);
+        let mut d = std_chain(&mut cr, fab, dn, vec![], d_icac, 4);
+        // both chains hang under the same root record; ICAC keys differ per side
+        if let Some(i) = d.1.as_mut() {
+            i.pk = 3;
+            i.sk = Some(3);
+            d.2.ak = Some(3);
+            d.2.sg = Some(3);
+        }
+        let root = c.0.clone();
+        let mut ops = Vec::new();
+        match id % 7 {
+            0 => {
+                out.stat("kind_honest_then_resume", 1);
+                ops.push(hs_line(&root, &c, &d, None, ""));
+                ops.push("again".to_string());
+                ops.push("again".to_string());
+            }
+            1 => {
+                out.stat("kind_chain_defect", 1);
+                // a defect on the controller's or the device's chain
+                let on_ctl = cr.chance(2, 3);
+                let mut cc = c.clone();
+                let mut dd = d.clone();
+                let mut droot: Option<Rec> = None;
+                let mut extra = String::new();
+                if cr.chance(1, 6) {
+                    // the node does not hold the private key its NOC certifies
+                    extra = format!("{}=5", if on_ctl { "ckey" } else { "dkey" });
+                    out.stat(&format!("defect_{}_wrong_op_key", if on_ctl { "ctl" } else { "dev" }), 1);
+                } else {
+                    let t = if on_ctl { &mut cc } else { &mut dd };
+                    let name = match cr.below(14) {
+                        0 => { t.2.fl = Some(cr.below(512) as u16); "sig_flip" }
+                        1 => { t.2.i = vec![Attr::Root(99), Attr::Fab(fab)]; "issuer_name" }
+                        2 => { t.2.na = 1000; "expired" }
+                        3 => { t.2.bc = Some((true, None)); "leaf_is_ca" }
+                        4 => { t.2.ku = Some(0x20); "leaf_no_digsig" }
+                        5 => { if let Some(i) = t.1.as_mut() { i.ku = Some(0x40); "ca_no_keycertsign" } else { t.2.eku = Some(vec![1]); "leaf_eku" } }
+                        6 => { t.2.cr = 1; "critical_ext" }
+                        7 => { t.2.s.retain(|a| !matches!(a, Attr::Node(_))); t.2.s.insert(0, Attr::Other(5)); "no_node_id" }
+                        8 => { for a in t.2.s.iter_mut() { if let Attr::Fab(v) = a { *v ^= 1; } } "fabric_mismatch" }
+                        9 => { t.2.s.insert(0, Attr::Ica(66)); t.2.bc = Some((true, None)); t.2.ku = Some(0x21); "ca_leaf_with_node_id" }
+                        10 => { t.2.sg = Some(5); "signed_by_other_key" }
+                        11 => { t.2.ak = Some(200); "akid" }
+                        12 => { t.2.tb = true; "tbs_altered" }
+                        _ => {
+                            // the other side trusts a different root key for the same fabric id
+                            let mut rr = root.clone();
+                            rr.pk = 5; rr.sk = Some(5); rr.ak = Some(5); rr.sg = Some(5);
+                            droot = Some(rr);
+                            "other_root"
+                        }
+                    };
+                    out.stat(&format!("defect_{}_{}", if on_ctl { "ctl" } else { "dev" }, name), 1);
+                }
+                ops.push(hs_line(&root, &cc, &dd, droot.as_ref(), &extra));
+            }
+            2 => {
+                out.stat("kind_mutation_full", 1);
+                ops.push(hs_line(&root, &c, &d, None, &random_mutation(&mut cr, false, &mut out)));
+                ops.push("again".to_string());
+            }
+            3 | 6 => {
+                out.stat("kind_mutation_resumed", 1);
+                ops.push(hs_line(&root, &c, &d, None, ""));
+                ops.push(format!("again {}", random_mutation(&mut cr, true, &mut out)));
+                ops.push("again".to_string());
+            }
+            4 => {
+                out.stat("kind_replay_substitute", 1);
+                ops.push(hs_line(&root, &c, &d, None, ""));
+                let msg = *cr.pick(&["s1", "r2", "st", "s1"]);
+                let m = if cr.chance(1, 2) { format!("mut={}:r", msg) } else { format!("mut={}:x:{}", msg, cr.pick(&[1u64, 2, 3, 4, 6, 7])) };
+                out.stat("mut_replay_or_subst", 1);
+                ops.push(format!("again {}", m));
+                ops.push("again".to_string());
+            }
+            _ => {
+                out.stat("kind_schedule", 1);
+                ops.push(hs_line(&root, &c, &d, None, &random_sched(&mut cr, &mut out)));
+                ops.push(format!("again {}", random_sched(&mut cr, &mut out)));
+            }
+        }
+        run_case(&mut out, &Case { id, kind: "case".into(), ops });
+    }
+    out.finish()
+}
+
+pub fn replay(a: &Args) -> String {
+    let text = std::fs::read_to_string(a.input.as_ref().expect("--in")).expect("read input");
+    let mut out = Out::default();
+    for c in parse_cases(&text) {
+        run_case(&mut out, &c);
+    }
+    out.finish()
 }
